@@ -84,6 +84,13 @@ def gen(rng, tier):
         src = dict(kind='arrays', nt=5, nl=rng.randint(1, 2), nr=rng.randint(1, 2), nc=rng.randint(1, 2), nv=1, sdate=sd, stime=0,
                    tstep=ts, lv=sorted(rng.sample(range(0, 65), 5), reverse=True), withcf=False, notflag=True)
         out.append(dict(src=src, recipes=[], ops=[['slice', [['TSTEP', ['s', 1, None]]]]], redate=0))
+    # on every run: the origin held as arrays, a window that does not start at the first row / column
+    for _ in range(4):
+        sd, st = rng.choice(STARTS)
+        src = dict(kind='arrays', nt=rng.randint(1, 3), nl=rng.randint(1, 2), nr=rng.randint(3, 4), nc=rng.randint(3, 4), nv=1, sdate=sd,
+                   stime=st, tstep=10000, lv=sorted(rng.sample(range(0, 65), 5), reverse=True), withcf=False)
+        out.append(dict(src=src, recipes=[], origarr=True,
+                        ops=[['slice', [['ROW', ['s', rng.randint(1, 2), None]], ['COL', ['s', rng.randint(1, 2), None]]]]]))
     # the corners of the integer selectors, in every run: the last record counted from the end (the window [-1:0] is
     # empty, [-1:] is not), the first counted from the end, and numpy integers on both horizontal axes at once
     for j in range(12):
@@ -100,6 +107,11 @@ def gen(rng, tier):
             kw = [['TSTEP', ['i', -1] + np_], [['LAY', 'ROW', 'COL'][j % 3], ['i', -1] + np_]]
         out.append(dict(src=src, recipes=[], ops=[['slice', kw]]))
     return out
+
+
+def _sc(x):
+    """a scalar attribute, or the element of a 0-d / one-element array"""
+    return float(np.asarray(x).ravel()[0])
 
 
 def impl(case):
@@ -121,10 +133,15 @@ def impl(case):
             nv_.units = 'ppm'.ljust(16)
             nv_.long_name = 'NEWV'.ljust(16)
             nv_.var_desc = 'NEWV'.ljust(80)
+        if case.get('origarr'):
+            # the grid origin held as arrays (a 0-d and a one-element array): what `f.XORIG = np.array(...)` or a reader that
+            # keeps attribute arrays leaves; the window must not shift the SOURCE's origin
+            f.XORIG = np.array(_sc(f.XORIG))
+            f.YORIG = np.array([_sc(f.YORIG)])
         res = dict(init=c10.obs(f), init_bad=c10.coherent(f), ops=list(case['ops']), states=[])
         T = f.getTimes()
         res['src_times'] = [int(t.strftime('%Y%j%H%M%S')) for t in T]
-        res['src_geo'] = [float(f.XORIG), float(f.YORIG), float(f.XCELL), float(f.YCELL)]
+        res['src_geo'] = [_sc(f.XORIG), _sc(f.YORIG), _sc(f.XCELL), _sc(f.YCELL)]
         res['src_vg'] = [float(x) for x in f.VGLVLS]
         res['src_step'] = int(f.TSTEP)
         try:
@@ -142,7 +159,8 @@ def impl(case):
             res['states'].append(dict(st=None, bad=['the time flags of the window differ from variable to variable']))
             return res
         res['out_times'] = [int(t.strftime('%Y%j%H%M%S')) for t in g.getTimes()]
-        res['out_geo'] = [float(g.XORIG), float(g.YORIG), float(g.XCELL), float(g.YCELL)]
+        res['out_geo'] = [_sc(g.XORIG), _sc(g.YORIG), _sc(g.XCELL), _sc(g.YCELL)]
+        res['src_geo_after'] = [_sc(f.XORIG), _sc(f.YORIG), _sc(f.XCELL), _sc(f.YCELL)]
         res['out_vg'] = [float(x) for x in np.atleast_1d(g.VGLVLS)]
         res['out_attr'] = [int(g.SDATE), int(g.STIME), int(g.TSTEP)]
         res['out_dims'] = {k: (len(g.dimensions[k]) if k in g.dimensions else -1) for k in ('TSTEP', 'LAY', 'ROW', 'COL')}
@@ -177,6 +195,8 @@ def oracle(case, res):
     for d in n:
         if res['out_dims'][d] != len(idx[d]):
             return 'dimension %s has length %d, the window selects %d' % (d, res['out_dims'][d], len(idx[d]))
+    if res.get('src_geo_after', res['src_geo']) != res['src_geo']:
+        return 'the window moved the origin of the SOURCE file: %s -> %s' % (res['src_geo'], res['src_geo_after'])
     xo, yo, xc, yc = res['src_geo']
     want = [xo + idx['COL'][0] * xc, yo + idx['ROW'][0] * yc, xc, yc]
     if res['out_geo'] != want:
